@@ -1,18 +1,28 @@
 package xsdtype
 
 import (
+	"regexp"
+
 	"github.com/dpb587/rdfkit-go/ontology/xsd/xsdiri"
 	"github.com/dpb587/rdfkit-go/ontology/xsd/xsdutil"
 	"github.com/dpb587/rdfkit-go/rdf"
 	"github.com/dpb587/rdfkit-go/rdf/objecttypes"
 )
 
+// https://www.w3.org/TR/xmlschema11-2/#base64Binary
+var base64BinaryValidRE = regexp.MustCompile(`^((([A-Za-z0-9+/] ?){4})*(([A-Za-z0-9+/] ?){3}[A-Za-z0-9+/]|([A-Za-z0-9+/] ?){2}[AEIMQUYcgkosw048] ?=|[A-Za-z0-9+/] ?[AQgw] ?= ?=))?$`)
+
 type Base64Binary []byte
 
 var _ objecttypes.Value = Base64Binary{}
 
 func MapBase64Binary(lexicalForm string) (Base64Binary, error) {
-	return Base64Binary(xsdutil.WhiteSpaceCollapse(lexicalForm)), nil
+	lexicalForm = xsdutil.WhiteSpaceCollapse(lexicalForm)
+	if !base64BinaryValidRE.MatchString(lexicalForm) {
+		return nil, rdf.ErrLiteralLexicalFormNotValid
+	}
+
+	return Base64Binary(lexicalForm), nil
 }
 
 func (v Base64Binary) AsObjectValue() rdf.ObjectValue {
